@@ -164,6 +164,15 @@ CLAIMED = {
             "returns NaN without reading data or raising; accessors copy and nothing is stored into the curve; "
             "fraction features lie in [0,1]. Numeric ranges, scale and segment independence involve gaussian "
             "filters, lstsq and std (external numerics) and are bounded.", "3 C17"),
+    "C15": ("other", "contract-based deductive verification: the cleaning pipeline of IndentationRater.load_training_set "
+            "symbolically executed on a matrix with a symbolic number of rows (2-D pointwise arrays, NaN flags, "
+            "infinity signs with IEEE inf-arithmetic), all flag combinations; bounded stand-ins for the text round "
+            "trip, sample weights and export",
+            "For every matrix and response vector: imputation uses exactly the mean of the zero-rated non-NaN "
+            "entries of that feature, a row survives iff it holds no NaN afterwards, samples and responses are "
+            "selected by the same predicate (alignment), infinities become +-2 x the largest finite magnitude among "
+            "the kept rows, no NaN/inf remains, every ordinary entry is untouched, columns follow the sorted names. "
+            "np.savetxt/loadtxt, compute_sample_weight and the export are exercised bounded.", "3 C15"),
 }
 
 NOT_APPLICABLE = {
